@@ -81,6 +81,7 @@ type c16Dest struct {
 }
 
 type c16World struct {
+	mixin  z.Schema // one Schema value handed to several Extend calls (an operand: must never change)
 	live   []*z.StructSchema
 	models []*c16Model
 	log    *[]string
@@ -188,6 +189,16 @@ func c16Scenario(depth, k, p int) mc.Scenario {
 		zh.Install(x, zh.PoolLIFO, zh.OrderSorted)
 		var log []string
 		w := &c16World{log: &log}
+		w.mixin = z.Schema{"b": c16Build("b"), "c": c16Build("c"), "d": c16Build("d")}
+		mixinKeys := func() string {
+			var ks []string
+			for k := range w.mixin {
+				ks = append(ks, k)
+			}
+			sort.Strings(ks)
+			return strings.Join(ks, ",")
+		}
+		mixin0 := mixinKeys()
 		// base schema with k tests and p PostTransforms appended one by one (capacities 0,1,2,4)
 		base := z.Struct(z.Schema{"a": c16Build("a"), "b": c16Build("b"), "c": c16Build("c")})
 		bm := &c16Model{fields: map[string]string{"a": "a", "b": "b", "c": "c"}}
@@ -208,6 +219,11 @@ func c16Scenario(depth, k, p int) mc.Scenario {
 		hist := []string{fmt.Sprintf("base: Struct{a,b,c} with %d tests, %d posts", k, p)}
 		out := &mc.Outcome{Nontrivial: true}
 		check := func() bool {
+			if now := mixinKeys(); now != mixin0 {
+				x.Note("history: %s", strings.Join(hist, " ; "))
+				out.Viol = append(out.Viol, &mc.Violation{Key: "C16:operand-modified:" + c16LastOp(hist), What: "the Schema value passed to Extend (an operand) was modified", Expected: "fields " + mixin0, Observed: "fields " + now})
+				return false
+			}
 			for i := range w.live {
 				var keys []string
 				for kk := range w.models[i].fields {
@@ -315,6 +331,11 @@ func c16Scenario(depth, k, p int) mc.Scenario {
 					ops = append(ops, op{"Pick(a,b,c)", func() { derive(s.Pick("a", "b", "c"), m.clone()) }})
 				}
 				ops = append(ops, op{"Merge(fresh Struct{})", func() { derive(s.Merge(z.Struct(z.Schema{})), m.clone()) }})
+				ops = append(ops, op{"Extend(shared mixin {b,c,d})", func() {
+					nm := m.clone()
+					nm.fields["b"], nm.fields["c"], nm.fields["d"] = "b", "c", "d"
+					derive(s.Extend(w.mixin), nm)
+				}})
 				ops = append(ops, op{"Extend({d})", func() {
 					nm := m.clone()
 					nm.fields["d"] = "d"
@@ -436,7 +457,7 @@ func c16Depth(tier string) int {
 func init() {
 	Register(&Prop{
 		ID:    "C16",
-		Rule:  "one execution = one builder history: base Struct{a,b,c} with 0..3 tests and 0..2 PostTransforms appended one by one (capacities 0,1,2,4), then ≤depth events, each applied to any of ≤3 live schemas from {Pick(keys|map), Omit(keys|map), Extend(new field | overriding field), Merge(other live schema | a fresh one-field schema with 0..1 tests and a PostTransform [, more]), Test, TestFunc, PostTransform}; after every event every live schema is probed (all fields valid; first field failing) on the real code and compared with the model's hand-built equivalent (tests run, their order, PostTransforms run, issues, destination). every history is non-trivial; distinct = distinct final model states of all live schemas",
+		Rule:  "one execution = one builder history: base Struct{a,b,c} with 0..3 tests and 0..2 PostTransforms appended one by one (capacities 0,1,2,4), then ≤depth events, each applied to any of ≤3 live schemas from {Pick(keys|map), Omit(keys|map), Extend(new field | overriding field | one shared three-field Schema value reused by every such call | nothing), Merge(other live schema | a fresh one-field schema with 0..1 tests and a PostTransform [, more]), Test, TestFunc, PostTransform}; after every event every live schema is probed (all fields valid; first field failing) on the real code and compared with the model's hand-built equivalent (tests run, their order, PostTransforms run, issues, destination). every history is non-trivial; distinct = distinct final model states of all live schemas",
 		Floor: 50,
 		Bound: func(tier string) string { return fmt.Sprintf("all histories of depth ≤%d over ≤3 live schemas", c16Depth(tier)) },
 		Assumptions: []string{
